@@ -219,7 +219,7 @@ class C15(Lab):
         "SmartDashboard values are written through the NetworkTables table 'SmartDashboard' of the default instance",
     )
     budgets = {"quick": 6000, "thorough": 200000}
-    time_budget = {"quick": 80, "thorough": 1500}
+    time_budget = {"quick": 240, "thorough": 3600}
 
     def setup(self):
         simenv.init()
